@@ -75,7 +75,7 @@ def _stdlib_transitions_under_lock(repo):
                 ok = "_me_lock" in held
                 # RetryFuture passes the bound super method into __terminate_via, which calls it under the lock
                 out.append(S.ob("state transition %s in %s happens under _me_lock" % (nm, S.short(qn)), "FR", ok,
-                                ["C02", "C13", "C06", "C18"], {"site": "%s:%d" % (f.module.path, line), "held": list(held)}))
+                                ["C02", "C13", "C06", "C18", "C01", "C03"], {"site": "%s:%d" % (f.module.path, line), "held": list(held)}))
         # bound super methods passed as values (RetryFuture.__terminate_via(method, ...))
         for n in ast.walk(f.node):
             if isinstance(n, ast.Call) and isinstance(n.func, ast.Attribute) and n.func.attr.endswith("__terminate_via"):
@@ -162,8 +162,161 @@ REPLAYS = [("C02", "every possibly-pending future handed out", "replay/c02_combi
 STATIC = [
     dict(name="future-handout", props=["C02", "C03"], run=_future_handout),
     dict(name="regions", props=sorted({p for r in REGIONS for p in r["props"]}), run=_regions),
-    dict(name="future-state-transitions", props=["C02", "C13", "C05", "C06", "C18"], run=_stdlib_transitions_under_lock),
+    dict(name="future-state-transitions", props=["C02", "C13", "C05", "C06", "C18", "C01", "C03"], run=_stdlib_transitions_under_lock),
     dict(name="wake-orders", props=["C03", "C05", "C07", "C08", "C09", "C11"], run=_wake_orders),
     dict(name="writer-sets", props=["C13", "C01", "C02", "C06", "C07", "C08", "C14", "C15"], run=_writer_sets),
 ]
 UNITS = []
+
+
+# ---------------------------------------------------------------------------------------------
+# C04: lock levels (LL) and no up-call under a non-re-entrant lock (OP-2)      DESIGN 3.4 / 3.6
+# ---------------------------------------------------------------------------------------------
+import ast as _ast
+
+
+def _lock_kinds(repo):
+    """(module short name, attribute) -> 'Lock' | 'RLock', from the constructor calls in the source."""
+    kinds = {}
+    for qn, f in repo.funcs.items():
+        for n in _ast.walk(f.node):
+            if isinstance(n, _ast.Assign) and isinstance(n.value, _ast.Call) and getattr(n.value.func, "id", None) in ("Lock", "RLock"):
+                for t in n.targets:
+                    if isinstance(t, _ast.Attribute):
+                        kinds[(f.module.name.split("._impl.")[-1], t.attr)] = n.value.func.id
+    for mn, mi in repo.modules.items():
+        for nm, v in mi.assigns.items():
+            if isinstance(v, _ast.Call) and getattr(v.func, "id", None) in ("Lock", "RLock"):
+                kinds[(mn.split("._impl.")[-1], nm)] = v.func.id
+    return kinds
+
+
+def _lock_id(f, attr):
+    mod = f.module.name.split("._impl.")[-1]
+    if attr == "_me_lock":
+        return ("future", "_me_lock")
+    if attr in ("call:ensure_alive",):
+        return ("helpers", "_lock")
+    return (mod, attr)
+
+
+# calls that take the shutdown gate (ShutdownHelper._lock) inside
+GATE_CALLS = {"ensure_alive", "_shutdown"}
+# what may be called with a NON-re-entrant library lock held: container primitives, the metric leaf objects,
+# logging, and the lock-holding helpers of the same region (checked themselves)
+SAFE_UNDER_LOCK = {"append", "popleft", "pop", "remove", "copy", "keys", "add", "discard", "debug", "exception", "labels", "inc", "dec",
+                   "incr", "decr", "list", "len", "monotonic", "done", "cancelled", "exception", "result", "_partition_jobs",
+                   "get_state_update", "Event", "ref", "register", "set", "clear", "enumerate", "Executors", "sync", "with_flat_map",
+                   "with_timeout", "EXECUTOR_REF", "weakref", "_clear_delegate", "range", "namedtuple"}
+
+
+def _lock_order(repo):
+    kinds = _lock_kinds(repo)
+    out = []
+    # direct acquisitions per function, and name-based transitive closure of `may acquire`
+    direct = {}
+    calls = {}
+    for qn, f in repo.funcs.items():
+        ff = S.facts(repo, f)
+        acq = set()
+        for (la, held, line) in ff.withs:
+            if la is None:
+                continue
+            acq.add(_lock_id(f, la))
+        for (nm, held, line, node) in ff.calls:
+            if nm in GATE_CALLS:
+                acq.add(("helpers", "_lock"))
+        direct[qn] = acq
+        calls[qn] = set(nm for (nm, held, line, node) in ff.calls if nm)
+    by_name = {}
+    for qn, f in repo.funcs.items():
+        nm = getattr(f.node, "name", None)
+        if nm:
+            by_name.setdefault(nm, []).append(qn)
+    may = {qn: set(a) for qn, a in direct.items()}
+    changed = True
+    # callbacks / user code are not followed: they run outside library locks (checked by OP-2 below)
+    FOLLOW_STOP = {"submit", "cancel", "add_done_callback", "shutdown", "result", "exception", "set_result", "set_exception"}
+    while changed:
+        changed = False
+        for qn in may:
+            for nm in calls[qn]:
+                if nm in FOLLOW_STOP:
+                    continue
+                for callee in by_name.get(nm, []):
+                    new = may[callee] - may[qn]
+                    if new:
+                        may[qn] |= new
+                        changed = True
+    edges = {}
+    for qn, f in repo.funcs.items():
+        ff = S.facts(repo, f)
+        for (la, held, line) in ff.withs:
+            if la is None:
+                continue
+            tgt = _lock_id(f, la)
+            for h in held:
+                src = _lock_id(f, h)
+                if src != tgt:
+                    edges.setdefault((src, tgt), []).append("%s:%d" % (S.short(qn), line))
+        for (nm, held, line, node) in ff.calls:
+            if not held or not nm:
+                continue
+            targets = set()
+            if nm in GATE_CALLS:
+                targets.add(("helpers", "_lock"))
+            if nm not in FOLLOW_STOP:
+                for callee in by_name.get(nm, []):
+                    targets |= may[callee]
+            for h in held:
+                src = _lock_id(f, h)
+                for tgt in targets:
+                    if src != tgt:
+                        edges.setdefault((src, tgt), []).append("%s:%d (via %s)" % (S.short(qn), line, nm))
+    # acyclicity (LEM(levels): a strict partial order respected by every acquire excludes wait-for cycles)
+    nodes = sorted(set(a for e in edges for a in e))
+    adj = {n: set() for n in nodes}
+    for (a, b) in edges:
+        adj[a].add(b)
+    cycles = []
+    color = {}
+
+    def dfs(u, path):
+        color[u] = 1
+        for v in sorted(adj[u]):
+            if color.get(v) == 1:
+                cycles.append(path[path.index(v):] + [v] if v in path else [u, v])
+            elif v not in color:
+                dfs(v, path + [v])
+        color[u] = 2
+    for n in nodes:
+        if n not in color:
+            dfs(n, [n])
+    wit = {}
+    for cyc in cycles:
+        for a, b in zip(cyc, cyc[1:]):
+            wit["%s.%s -> %s.%s" % (a + b)] = edges.get((a, b), [])[:3]
+    out.append(S.ob("LL: the lock-acquisition order of the library is acyclic (no AB/BA pair of acquire sites)", "LL", not cycles,
+                    ["C04", "C10", "C11"], {"cycles": [[".".join(x) for x in c] for c in cycles], "sites": wit}))
+    for (a, b), sites in sorted(edges.items()):
+        out.append(S.ob("LL edge %s.%s -> %s.%s is consistent with the lock levels" % (a + b), "LL",
+                        not any((a in c and b in c) for c in cycles), ["C04"], {"sites": sites[:3]}))
+    # OP-2: nothing that can reach user code / foreign delegates runs under a non-re-entrant lock
+    for qn, f in sorted(repo.funcs.items()):
+        ff = S.facts(repo, f)
+        for (nm, held, line, node) in ff.calls:
+            nonre = [h for h in held if kinds.get(_lock_id(f, h)) == "Lock" or (h == "call:ensure_alive" and kinds.get(("helpers", "_lock")) == "Lock")]
+            if not nonre or nm is None:
+                continue
+            ok = nm in SAFE_UNDER_LOCK
+            out.append(S.ob("OP-2 %s: call `%s` while holding non-re-entrant %s cannot re-enter the library or run user code"
+                            % (S.short(qn), nm, "/".join(sorted(set(nonre)))), "OP", ok, ["C04"],
+                            {"site": "%s:%d" % (f.module.path, line), "held": list(held)}))
+    ded = {}
+    for o in out:
+        if o["name"] not in ded or o["verdict"] == "refuted":
+            ded[o["name"]] = o
+    return list(ded.values())
+
+
+STATIC.append(dict(name="lock-order", props=["C04", "C10", "C11"], run=_lock_order))
